@@ -3,6 +3,7 @@ package checks
 import (
 	"encoding/json"
 	"fmt"
+	"path/filepath"
 	"regexp"
 	"strings"
 	"testing"
@@ -56,6 +57,13 @@ func init() {
 			return c08Parse(c, cs, "json", mustJSON(cs))
 		})
 	}
+	harness.RegisterReplayer("C08/large-files", func(raw json.RawMessage) string {
+		lc, err := unJSON[largeCase](raw)
+		if err != nil {
+			return "bad case: " + err.Error()
+		}
+		return c08Large(harness.New(nopTB{}, "C08", "replay", ""), lc)
+	})
 	harness.RegisterReplayer("C08/cycles", func(raw json.RawMessage) string {
 		cs, err := unJSON[treeCase](raw)
 		if err != nil {
@@ -122,6 +130,7 @@ func c08Alphabet() []string {
 		"{{--", "--}}", "\"", "'", "\"s\"", "'s'",
 		"x", "loop", "1", "0", "1.5", "true", "false", "nil", "in",
 		"@", "\\", "#", "\xc3\xa9", "t", " ", "\n",
+		"If", "if", // directly after @else/@break/@continue: the wrong-case spellings of the long directives
 	}
 	withParens := map[string]bool{"@if": true, "@elseif": true, "@for": true, "@each": true, "@use": true, "@reserve": true, "@insert": true,
 		"@breakIf": true, "@continueIf": true, "@component": true, "@slot": true, "@dump": true}
@@ -627,4 +636,119 @@ func TestC08_Cycles(t *testing.T) {
 		rec(0)
 	}
 	c.ExhaustivePart("1..3 files x (4 reference forms x target file + none) per file")
+}
+
+// largeCase: PadBytes of filler text followed by Tail, loaded as page / layout /
+// component / through EvaluateFile and EvaluateString.
+type largeCase struct {
+	PadBytes int    `json:"pad_bytes"`
+	Unit     string `json:"unit"`
+	Tail     string `json:"tail"`
+	As       string `json:"as"`
+	Reject   bool   `json:"reject"`
+}
+
+func (lc largeCase) src() string {
+	n := lc.PadBytes/len(lc.Unit) + 1
+	return strings.Repeat(lc.Unit, n) + lc.Tail
+}
+
+func c08Large(c *harness.Check, lc largeCase) string {
+	src := lc.src()
+	tr := tree.Tree{"t/page.tw": tree.Entry{Content: src}}
+	switch lc.As {
+	case "layout":
+		tr["t/page.tw"] = tree.Entry{Content: `@use("lay")@insert("r1", "x")`}
+		tr["t/lay.tw"] = tree.Entry{Content: src + `@reserve("r1")`}
+	case "component":
+		tr["t/page.tw"] = tree.Entry{Content: `a@component("comp");b`}
+		tr["t/comp.tw"] = tree.Entry{Content: src}
+	}
+	root, err := tree.Materialise(tr)
+	if err != nil {
+		return ""
+	}
+	var failure string
+	pi := c.Guard("json", mustJSON(lc), func() {
+		textwire.VerifReset()
+		var out string
+		var ferr error
+		switch lc.As {
+		case "evalfile":
+			out, ferr = textwire.EvaluateFile(filepath.Join(root, "t", "page.tw"), nil)
+		case "evalstring":
+			out, ferr = textwire.EvaluateString(src, nil)
+		default:
+			tpl, lerr := textwire.NewTemplate(&config.Config{TemplateDir: "t", TemplateExt: ".tw"})
+			if (tpl == nil) == (lerr == nil) {
+				failure = fmt.Sprintf("NewTemplate returned (%v, %v)", tpl, lerr)
+				return
+			}
+			if lerr != nil {
+				ferr = lerr
+			} else {
+				var fe interface{ Error() error }
+				o, e := tpl.String("page", nil)
+				out = o
+				if e != nil {
+					fe = e
+					ferr = fe.Error()
+				}
+			}
+		}
+		if lc.Reject {
+			if ferr == nil {
+				failure = fmt.Sprintf("a source of %d bytes whose last bytes are %q was accepted", len(src), lc.Tail)
+			}
+			return
+		}
+		if ferr != nil {
+			failure = "unexpected error: " + ferr.Error()
+			return
+		}
+		// nothing of a long text is lost
+		if lc.As == "page" || lc.As == "evalfile" || lc.As == "evalstring" {
+			if out != src {
+				failure = fmt.Sprintf("output has %d bytes, the text has %d", len(out), len(src))
+			}
+		} else if !strings.Contains(out, lc.Tail) || len(out) < len(src) {
+			failure = fmt.Sprintf("output has %d bytes and ends %q, the text has %d and ends %q", len(out), clip(out[max(0, len(out)-40):], 60), len(src), lc.Tail)
+		}
+	})
+	if pi != nil {
+		return "panic: " + pi.Value
+	}
+	return failure
+}
+
+// TestC08_LargeFiles: the length of a source changes nothing: what stands behind
+// a long stretch of text is parsed (and rejected) like anything else.
+func TestC08_LargeFiles(t *testing.T) {
+	c := harness.New(t, "C08", "large-files",
+		"sources of 70 KiB, 1 MiB + 300 and 2.5 MiB of plain text lines followed by each of {nothing, an illegal character inside {{ }}, an unterminated @if, an unterminated {{, an unterminated string, an unterminated comment, a complete {{ 1 + 1 }}}, as the only page, as a layout, as a component, through EvaluateFile and through EvaluateString: defects are rejected with an error, complete sources render every byte. Exhaustive over the listed combinations. Non-trivial: longer than 1 MiB. Distinct by construction.")
+	defer c.Finish()
+	tails := []struct {
+		tail   string
+		reject bool
+	}{{"", false}, {"<p>end</p>", false}, {"{{ # }}", true}, {"@if(true)never closed", true}, {"{{ 1 + ", true}, {"{{ \"open string }}", true}, {"{{-- open comment", true}}
+	idx := 0
+	for _, size := range []int{70 << 10, 1<<20 + 300, 5 << 19} {
+		for _, tl := range tails {
+			for _, as := range []string{"page", "layout", "component", "evalfile", "evalstring"} {
+				idx++
+				if !harness.Mine(idx) {
+					continue
+				}
+				lc := largeCase{PadBytes: size, Unit: "<tr><td>row</td></tr>\n", Tail: tl.tail, As: as, Reject: tl.reject}
+				c.CaseEnum(size > 1<<20, "as:"+as, fmt.Sprintf("reject:%v", tl.reject))
+				if idx%7 == 0 {
+					c.Sample(lc)
+				}
+				if f := c08Large(c, lc); f != "" {
+					c.Fail(t, kindOf(f), lc, "error for a defect, every byte otherwise", f, f)
+				}
+			}
+		}
+	}
+	c.ExhaustivePart("3 sizes x 7 endings x 5 ways of loading")
 }
